@@ -387,5 +387,54 @@ def r14_8(ctx):
 r14_8.rule_id = "R14.8"
 
 
-RULES = [r14_1, r14_2, r14_3, r14_4, r14_5, r14_6, r14_7, r14_8]
-FLOORS = {"R14.1": 20, "R14.2": 30, "R14.3": 2, "R14.4": 1, "R14.5": 14, "R14.6": 20, "R14.7": 100, "R14.8": 6}
+def r14_9(ctx):
+    """MichaelHashSet / MichaelHashMap: a keyed operation decides its result by consulting the key's bucket - every return path calls a member
+    of the list returned by bucket( key ) (or delegates to another keyed member).  A result taken from anything else (e.g. the item counter,
+    which is updated after the list and lags it) is not a result about the key."""
+    from sa.q import sv_mentions
+    KEYED = r"(find|find_with|contains|get|get_with|insert|update|upsert|ensure|emplace|erase|erase_with|unlink|extract|extract_with)$"
+    n = 0
+    memo = {}
+
+    def consults(G, depth=0):
+        """G is a member of the hash set that (transitively, through other members) uses bucket()"""
+        if G is None or not re.match(r"cds::(intrusive|container)::MichaelHash(Set|Map)::", G.q) or depth > 4:
+            return False
+        if G.m in memo:
+            return memo[G.m]
+        memo[G.m] = False
+        r = bool(Q.calls_in(G, r"MichaelHash(Set|Map)::bucket$"))
+        if not r:
+            for c in Q.calls_in(G, r"MichaelHash(Set|Map)::"):
+                if consults(ctx.db.get(c.get("m")), depth + 1):
+                    r = True
+                    break
+        memo[G.m] = r
+        return r
+    for F in ctx.db.funcs.values():
+        m = re.match(r"cds::(intrusive|container)::MichaelHash(Set|Map)::" + KEYED, F.q)
+        if not m or not F.params:
+            continue
+        try:
+            ps = PathSim(F, bound=2000).run()
+        except PathBoundExceeded:
+            continue
+        for p in ps:
+            if p.outcome != "return":
+                continue
+            ev = p.events
+            bvals = [noepoch(e.val) for e in ev if e.kind == "call" and e.q and re.search(r"MichaelHash(Set|Map)::bucket$", e.q)]
+            used = any(e.kind == "call" and e.obj is not None and any(sv_mentions(noepoch(e.obj), b) or noepoch(e.obj) == b for b in bvals) for e in ev)
+            deleg = any(e.kind == "call" and e.node is not None and consults(ctx.db.get(e.node.get("m"))) for e in ev)
+            n += 1
+            ctx.check(used or deleg, "R14.9", F, "a keyed MichaelHashSet operation returns only after consulting the key's bucket", None,
+                      detail="this path returns %r without calling a member of bucket( key ): the result does not depend on whether the key is in the set (a shortcut on "
+                      "size() / the item counter is wrong whenever the counter lags the bucket lists - insert links the node first and counts afterwards). %s"
+                      % (p.ret, R), sig="result-from-bucket")
+    if n < 20:
+        ctx.broken("MichaelHashSet keyed operations not found (%d return paths)" % n)
+r14_9.rule_id = "R14.9"
+
+
+RULES = [r14_1, r14_2, r14_3, r14_4, r14_5, r14_6, r14_7, r14_8, r14_9]
+FLOORS = {"R14.1": 20, "R14.2": 30, "R14.3": 2, "R14.4": 1, "R14.5": 14, "R14.6": 20, "R14.7": 100, "R14.8": 6, "R14.9": 20}
